@@ -10,6 +10,7 @@ import (
 	verifos "os"
 	verifruntime "runtime"
 	verifsync "sync"
+	verifatomic "sync/atomic"
 	veriftime "time"
 	verifunsafe "unsafe"
 )
@@ -171,7 +172,13 @@ func verifWaitQuiescent() {
 	veriftime.Sleep(120 * veriftime.Millisecond)
 }
 
-func verifHeldLocks() int { return 0 }
+// verifHeldLocks: executor: the number of mutexes currently held by any goroutine. Natively: the same for the mutexes
+// of this package, counted by the lock instrumentation of the replay (0 in an uninstrumented build).
+var verifLockCount int64
+
+func verifLockInc()       { verifatomic.AddInt64(&verifLockCount, 1) }
+func verifLockDec()       { verifatomic.AddInt64(&verifLockCount, -1) }
+func verifHeldLocks() int { return int(verifatomic.LoadInt64(&verifLockCount)) }
 func verifIsNative() bool { return true }
 func verifMaxAlloc() int  { return 0 }
 func verifAllocReset()    {}
